@@ -4,6 +4,7 @@ import (
 	"fmt"
 	"os"
 	"path/filepath"
+	"regexp"
 	"strings"
 	"sync"
 )
@@ -24,9 +25,53 @@ type Witness struct {
 	More []Edit
 	// KeyHas, if set, must be contained in the reported construct key
 	KeyHas string
+	// Renames: identifier renames inside one declaration each (neutral witnesses)
+	Renames []Rename
 }
 
 type Edit struct{ File, Old, New string }
+
+// renameIn builds the edit that renames identifier `from` to `to` inside the declaration that starts
+// with the (unique) line `start` and runs to the next line consisting of "}" — a rename-only refactoring.
+func renameIn(src, file, start, from, to string) (Edit, bool) {
+	if strings.Count(src, start) != 1 {
+		return Edit{}, false
+	}
+	i := strings.Index(src, start)
+	j := strings.Index(src[i:], "\n}\n")
+	if j < 0 {
+		return Edit{}, false
+	}
+	body := src[i : i+j+3]
+	re := regexp.MustCompile(`\b` + regexp.QuoteMeta(from) + `\b`)
+	// leave selector/field uses (x.from) and struct-literal keys (from:) alone
+	out := re.ReplaceAllStringFunc(body, func(m string) string { return m })
+	var sb strings.Builder
+	last := 0
+	for _, loc := range re.FindAllStringIndex(body, -1) {
+		sb.WriteString(body[last:loc[0]])
+		prev := byte(' ')
+		if loc[0] > 0 {
+			prev = body[loc[0]-1]
+		}
+		next := byte(' ')
+		if loc[1] < len(body) {
+			next = body[loc[1]]
+		}
+		if prev == '.' || prev == '"' || (next == ':' && loc[1]+1 < len(body) && body[loc[1]+1] != '=') {
+			sb.WriteString(body[loc[0]:loc[1]])
+		} else {
+			sb.WriteString(to)
+		}
+		last = loc[1]
+	}
+	sb.WriteString(body[last:])
+	_ = out
+	return Edit{File: file, Old: body, New: sb.String()}, true
+}
+
+// Rename describes a rename-only neutral witness.
+type Rename struct{ File, Start, From, To string }
 
 var witnesses []Witness
 
@@ -48,7 +93,11 @@ type extraResult struct {
 }
 
 func applyEdits(repo string, wit Witness) (map[string][]byte, string) {
-	edits := append([]Edit{{wit.File, wit.Old, wit.New}}, wit.More...)
+	var edits []Edit
+	if wit.Old != "" {
+		edits = append(edits, Edit{wit.File, wit.Old, wit.New})
+	}
+	edits = append(edits, wit.More...)
 	ov := map[string][]byte{}
 	for _, e := range edits {
 		path := filepath.Join(repo, e.File)
@@ -65,6 +114,35 @@ func applyEdits(repo string, wit Witness) (map[string][]byte, string) {
 			return nil, fmt.Sprintf("snippet occurs %d times in %s (tree was edited; witness not applicable)", n, e.File)
 		}
 		ov[path] = []byte(strings.Replace(string(src), e.Old, e.New, 1))
+	}
+	done := map[string]bool{}
+	for _, r := range wit.Renames {
+		if done[r.File+"\x00"+r.Start] {
+			continue
+		}
+		done[r.File+"\x00"+r.Start] = true
+		path := filepath.Join(repo, r.File)
+		src, ok := ov[path]
+		if !ok {
+			b, err := os.ReadFile(path)
+			if err != nil {
+				return nil, "file missing: " + r.File
+			}
+			src = b
+		}
+		// all renames of one declaration are applied to its body in one go
+		e0, ok := renameIn(string(src), r.File, r.Start, "\x00none", "")
+		if !ok {
+			return nil, "declaration not found for rename (tree was edited; witness not applicable): " + r.Start
+		}
+		body := e0.Old
+		for _, r2 := range wit.Renames {
+			if r2.File == r.File && r2.Start == r.Start {
+				e, _ := renameIn(body+"\n", r2.File, body[:strings.Index(body, "\n")], r2.From, r2.To)
+				body = strings.TrimSuffix(e.New, "\n")
+			}
+		}
+		ov[path] = []byte(strings.Replace(string(src), e0.Old, body, 1))
 	}
 	return ov, ""
 }
